@@ -144,8 +144,8 @@ chk("C06",
     "Props/C06.lean: every label-addressed table of PiBas, PiPack, PiPtr, Pi2Lev, CT14 and ANSS16 is `buildTable` of a pair list (proved by "
     "unfolding each setup); for every pair list with distinct labels the stored label sequence is sorted in Python's bytes order and depends "
     "only on the SET of labels (bytes order proved total, transitive, antisymmetric; sorted permutations are equal); for PiBas/PiPack whole runs: "
-    "the same key on any permutation of the database, with any randomness, stores the same label sequence. PiPtr placement is PROVED to be the image of the recorded random sample: the occupied slots are the tail of the sample, and the blocks of a keyword sit at sample.reverse[m..m+k) with m, k block counts only (placement_is_sample, placement_order_free, placement_is_random_image). Pi2Lev: the occupied array slots (identifier blocks and second-level pointer blocks of every storage class) are exactly a tail of the recorded sample (Pi2Lev.placement_is_sample). SSE1: the nodes of the keyword processed after `pre` hang at the addresses psi_K1(1+n), psi_K1(2+n), ... with n the number of postings of `pre` - the image under the keyed bit PRP (injective and length-preserving by the C15 theorems, not by assumption) of a counter segment that depends on list lengths only (SSE1.placement_is_prp_image). Array placement of DP17 ("
-    "bucket choice and shuffle) is modelled and replayed cell by cell; that two setups differ is a statement about `random` and is "
+    "the same key on any permutation of the database, with any randomness, stores the same label sequence. PiPtr placement is PROVED to be the image of the recorded random sample: the occupied slots are the tail of the sample, and the blocks of a keyword sit at sample.reverse[m..m+k) with m, k block counts only (placement_is_sample, placement_order_free, placement_is_random_image). Pi2Lev: the occupied array slots (identifier blocks and second-level pointer blocks of every storage class) are exactly a tail of the recorded sample (Pi2Lev.placement_is_sample). SSE1: the nodes of the keyword processed after `pre` hang at the addresses psi_K1(1+n), psi_K1(2+n), ... with n the number of postings of `pre` - the image under the keyed bit PRP (injective and length-preserving by the C15 theorems, not by assumption) of a counter segment that depends on list lengths only (SSE1.placement_is_prp_image). DP17: the keyword loop consumes one recorded random.choice per chunk and chunk k ends up in the bucket its draw names (DP17.chunks_go_where_the_choices_say). The in-bucket shuffle of DP17 ("
+    "and the whole-run statements for it) is modelled and replayed cell by cell; that two setups differ is a statement about `random` and is "
     "sampled by the direct oracle on databases with >= 12 array-resident blocks (one long list, three lists, many lists). Direct oracle (a): permute "
     "the keyword order, all tables sorted, real labels in the same order.",
     SCHEME_TRUST,
